@@ -11,7 +11,7 @@ import subprocess
 import sys
 import time
 
-WT = "/tmp/wt/confirm"
+WT = os.environ.get("WXV_CONFIRM_WT", "/tmp/wt/confirm")
 CRATES = {"crates/supervisor": "watchexec-supervisor", "crates/lib": "watchexec", "crates/cli": "watchexec-cli",
           "crates/ignore-files": "ignore-files", "crates/events": "watchexec-events", "crates/signals": "watchexec-signals",
           "crates/filterer/globset": "watchexec-filterer-globset", "crates/filterer/ignore": "watchexec-filterer-ignore",
